@@ -10,6 +10,28 @@ namespace Cav
 /-- C `log1p` (Rust `f64::ln_1p`). Compiled code only. -/
 @[extern "log1p"] opaque floatLog1p : Float → Float
 
+/-- C `hypot`. Compiled code only. -/
+@[extern "hypot"] opaque floatHypot : Float → Float → Float
+
+/-- `f64::copysign` -/
+def floatCopysign (x s : Float) : Float :=
+  Float.ofBits ((x.toBits &&& 0x7FFFFFFFFFFFFFFF) ||| (s.toBits &&& 0x8000000000000000))
+
+/-- Rust 1.95 `f64::asinh` (std's own formula, not libm):
+    `(ax + ax / (hypot(1, 1/ax) + 1/ax)).ln_1p().copysign(self)` -/
+def floatAsinh (x : Float) : Float :=
+  let ax := x.abs
+  let ix := 1.0 / ax
+  floatCopysign (floatLog1p (ax + (ax / (floatHypot 1.0 ix + ix)))) x
+
+/-- Rust 1.95 `f64::acosh`: `if self < 1.0 { NAN } else { (self + ((self-1).sqrt() * (self+1).sqrt())).ln() }` -/
+def floatAcosh (x : Float) : Float :=
+  if x < 1.0 then (0.0 / 0.0) else Float.log (x + ((x - 1.0).sqrt * (x + 1.0).sqrt))
+
+/-- Rust 1.95 `f64::atanh`: `0.5 * ((2.0 * self) / (1.0 - self)).ln_1p()` -/
+def floatAtanh (x : Float) : Float :=
+  0.5 * floatLog1p ((2.0 * x) / (1.0 - x))
+
 /-- compiler-rt / compiler_builtins `__powidf2`, the routine behind `f64::powi`. -/
 partial def floatPowiLoop (a : Float) (b : Nat) (r : Float) : Float :=
   let r := if b % 2 == 1 then r * a else r
@@ -50,7 +72,11 @@ def floatOfRatPos (n d : Nat) : Float :=
   (Float.ofNat q).scaleB e
 
 def floatOfDec (m : Nat) (e : Int) : Float :=
-  if e ≥ 0 then floatOfRatPos (m * 10 ^ e.toNat) 1 else floatOfRatPos m (10 ^ (-e).toNat)
+  -- out-of-range exponents are decided without building 10^|e| (m < 2^(log2 m + 1))
+  if m == 0 then 0.0
+  else if e > 400 then (1.0 / 0.0)
+  else if e < -(400 + (m.log2 : Int)) then 0.0
+  else if e ≥ 0 then floatOfRatPos (m * 10 ^ e.toNat) 1 else floatOfRatPos m (10 ^ (-e).toNat)
 
 instance instNumFloat : Num Float where
   ofNat n := Float.ofNat n
@@ -77,9 +103,9 @@ instance instNumFloat : Num Float where
   sinh := Float.sinh
   cosh := Float.cosh
   tanh := Float.tanh
-  asinh := Float.asinh
-  acosh := Float.acosh
-  atanh := Float.atanh
+  asinh := floatAsinh
+  acosh := floatAcosh
+  atanh := floatAtanh
   powf := Float.pow
   powi := floatPowi
   round := Float.round
